@@ -210,7 +210,7 @@ Lemma request_exposed : forall c w b script1 s' blob ex,
   o_exc (snd (request fresh c w b script1)) = None ->
   age_exp (w_now w) (cookie_age (w_now w) s' (newsess_of s')) = Some ex ->
   forall k v, dfind k (s_data s') = Some (v, true) -> v <> [] ->
-    s_how s' = 1%Z \/ entry_changed (s_copy s') k v = true ->
+    lifetime_renewed s' = true \/ entry_changed (s_copy s') k v = true ->
     in_step b k v ex (get_jar (fst (request fresh c w b script1)) b).
 Proof.
   intros c w b script1 s' blob ex Hrs Hd Hk Hb Hexc Hex k v Hf Hv Hc.
@@ -244,7 +244,7 @@ Theorem exposed_in_step_quiet : forall c w b script1 s' blob ex l,
   let w2 := fst (run fresh c w1 l) in
   exp_live (w_now w2) ex = true ->
   forall k v, dfind k (s_data s') = Some (v, true) -> v <> [] ->
-    s_how s' = 1%Z \/ entry_changed (s_copy s') k v = true ->
+    lifetime_renewed s' = true \/ entry_changed (s_copy s') k v = true ->
     in_step b k v ex (jar_expire (w_now w2) (get_jar w2 b)).
 Proof.
   intros c w b script1 s' blob ex l Hrs Hd Hk Hb Hexc Hex w1 Hq w2 Hl k v Hf Hv Hc.
